@@ -7,6 +7,7 @@ import GraphiqModel.Proofs.HeightEntropy
 import GraphiqModel.Proofs.HeightGraph
 import GraphiqModel.Proofs.EchelonCheck
 import GraphiqModel.Proofs.HeightTotal
+import GraphiqModel.Proofs.HilbertDimEntropy
 namespace Graphiq.C03
 open Graphiq Graphiq.PRow Graphiq.STab Graphiq.Tab
 
@@ -266,5 +267,105 @@ example : Echelon cl2 (fun _ => 0) := by
     | 1, 0, h, _ => omega
     | i + 2, k, h1, h2 => exact absurd h2 (by show ¬ (k < 2); omega)
     | i, k + 2, h1, h2 => exact absurd h2 (by show ¬ (k + 2 < 2); omega)
+
+end Graphiq.C03
+
+/-! ## The height function is an entanglement entropy in Hilbert space (was cited: Fattal et al.)
+
+  `Hilbert.rho n t = ∏_i (1 + P_i)/2` is the density matrix of the stabilizer tableau `t` (C07 §6), `Hilbert.ptraceList` the
+  iterated partial trace over a list of sites and `Hilbert.leftSites k = [k, …, 0]` (C07 §7;
+  `C07.partial_trace_defining_property` shows it is *the* partial trace).  The theorems below identify the number
+  `|B| − dim G_B` that `height_func_list` computes (`height_is_entropy_value`) with the entanglement entropy of the cut
+  `{0..k} | {k+1..n−1}`: the reduced state `σ_k` of the right part has a flat spectrum, `σ_k² = 2^{−h_k} σ_k` with `tr σ_k = 1`
+  — it is `2^{−h_k}` times an orthogonal projector of rank `2^{h_k}`, so its von Neumann entropy and all its Rényi entropies equal
+  `h_k` bits — and in particular its purity is `tr σ_k² = 2^{−h_k}`.  (No entropy functional is defined: the statement is the
+  spectral one.)  Proofs: `Proofs/HilbertDim{GroupSum,Reduced,Entropy}.lean`. -/
+
+namespace Graphiq.C03
+open Graphiq Graphiq.PRow Graphiq.STab Graphiq.Tab Graphiq.Hilbert Matrix
+
+/-- **`height_func_list` is the list of entanglement entropies of the cuts** (every n, every real commuting generating set
+    in any gauge on which the function returns — i.e. every stabilizer state): with `h_k = l[k]` and `σ_k = Tr_{0..k} ρ` the
+    reduced state of the qubits `k+1..n−1` (`m` of them): `σ_k² = 2^{−h_k} σ_k`, `tr σ_k = 1`, `tr σ_k² = 2^{−h_k}`. -/
+theorem height_is_entanglement_entropy (m : Nat) (t : STab) (k : Nat) (hn : t.n = m + (leftSites k).length)
+    (hg : t.Good) (l : List Int) (h : t.heightFuncList = .ok l) :
+    ptraceList (leftSites k) (rho (m + (leftSites k).length) t) * ptraceList (leftSites k) (rho (m + (leftSites k).length) t)
+      = ((2 : ℂ) ^ (-(l.getD k 0))) • ptraceList (leftSites k) (rho (m + (leftSites k).length) t) ∧
+    Matrix.trace (ptraceList (leftSites k) (rho (m + (leftSites k).length) t)) = 1 ∧
+    Matrix.trace (ptraceList (leftSites k) (rho (m + (leftSites k).length) t)
+        * ptraceList (leftSites k) (rho (m + (leftSites k).length) t)) = (2 : ℂ) ^ (-(l.getD k 0)) ∧
+    (leftSites k).length = k + 1 ∧ (∀ q, q ∈ leftSites k ↔ q ≤ k) :=
+  have h3 := height_is_renyi_entropy_stab m t k hn hg l h
+  ⟨h3.1, h3.2.1, h3.2.2, leftSites_length k, mem_leftSites k⟩
+
+/-- the same for the stabilizer half of a valid Clifford tableau (what the stabilizer backend holds), with the dimension
+    spelled out: the purity of the reduced state is `2^κ / 2^m`, `κ = dim_GF(2) (G ∩ supported right of k)` -/
+theorem cut_purity_of_valid_tableau (m : Nat) (t : Tab) (k : Nat) (hn : t.n = m + (leftSites k).length) (hv : t.Valid)
+    (hr : t.StabReal) :
+    Matrix.trace (ptraceList (leftSites k) (rho (m + (leftSites k).length) (STab.ofTab t))
+        * ptraceList (leftSites k) (rho (m + (leftSites k).length) (STab.ofTab t)))
+      = (2 : ℂ) ^ (Module.finrank (ZMod 2) ↥((STab.ofTab t).gspace ⊓ rightOf t.n k)) / 2 ^ m :=
+  (cut_entropy m t k hn hv hr).2
+
+/-- **every reduced state of a stabilizer state has a flat spectrum** (any subset of traced-out sites, listed in descending
+    order; valid Clifford tableau): `Tr_rem ρ = (2^κ/2^m)·Π` for an orthogonal projector `Π`, with
+    `κ = dim_GF(2) (G ∩ {trivial on rem})`; so the entanglement entropy of any bipartition is `m − κ` bits -/
+theorem reduced_state_has_flat_spectrum (m : Nat) (t : Tab) (rem : List Nat) (hn : t.n = m + rem.length) (hv : t.Valid)
+    (hr : t.StabReal) (hpw : rem.Pairwise (· > ·)) (hlt : ∀ q, q ∈ rem → q < t.n) :
+    ∃ Pr : Matrix (Bits m) (Bits m) ℂ, Pr * Pr = Pr ∧ Prᴴ = Pr ∧
+      ptraceList rem (rho (m + rem.length) (STab.ofTab t))
+        = ((2 : ℂ) ^ (Module.finrank (ZMod 2) ↥((STab.ofTab t).gspace ⊓ idOnSub t.n rem)) / 2 ^ m) • Pr ∧
+      Matrix.trace (ptraceList rem (rho (m + rem.length) (STab.ofTab t))
+          * ptraceList rem (rho (m + rem.length) (STab.ofTab t)))
+        = (2 : ℂ) ^ (Module.finrank (ZMod 2) ↥((STab.ofTab t).gspace ⊓ idOnSub t.n rem)) / 2 ^ m :=
+  reduced_state_flat m t rem hn hv hr hpw hlt
+
+/-- **the entanglement entropy of a graph state across a cut is the GF(2) rank of the adjacency block joining the two sides**
+    (Hein–Eisert–Briegel; every n, every symmetric adjacency relation, vertex order as given): the reduced state of the
+    vertices `k+1..n−1` is `2^{−r}` times a projector of rank `2^r`, `r = rank_{GF(2)} A[{0..k}, {k+1..n−1}]` -/
+theorem graph_state_cut_entropy_is_adjacency_rank (m n k : Nat) (adj : Nat → Nat → Bool)
+    (hsym : ∀ i j, i < n → j < n → adj i j = adj j i) (hn : n = m + (leftSites k).length) :
+    ptraceList (leftSites k) (rho (m + (leftSites k).length) (graphSTab n adj))
+        * ptraceList (leftSites k) (rho (m + (leftSites k).length) (graphSTab n adj))
+      = ((2 : ℂ) ^ (-((cutBlock n k adj).rank : ℤ))) • ptraceList (leftSites k) (rho (m + (leftSites k).length) (graphSTab n adj)) ∧
+    Matrix.trace (ptraceList (leftSites k) (rho (m + (leftSites k).length) (graphSTab n adj))
+        * ptraceList (leftSites k) (rho (m + (leftSites k).length) (graphSTab n adj)))
+      = (2 : ℂ) ^ (-((cutBlock n k adj).rank : ℤ)) := by
+  have hk : k < n := by rw [hn, leftSites_length]; omega
+  have h := height_is_entanglement_entropy m (graphSTab n adj) k hn (graphSTab_good' n adj hsym) _ (graph_height_list n adj)
+  have hget : ((List.range n).map fun (k : Nat) => Int.ofNat (cutBlock n k adj).rank).getD k 0
+      = ((cutBlock n k adj).rank : ℤ) := by
+    rw [List.getD_eq_getElem?_getD, List.getElem?_map, List.getElem?_range hk]
+    rfl
+  rw [hget] at h
+  exact ⟨h.1, h.2.2.1⟩
+
+/-- **the emitters suffice for every cut**: the number of emitters the solver allocates is at least the entanglement entropy
+    of every cut of the target (and equals the largest one, `solver_allocates_max_entropy`); with
+    `height_is_entanglement_entropy`, entry `k` is the entropy of the reduced state right of `k` -/
+theorem solver_emitters_bound_cut_entropies (target : STab) (s : Solver.St) (h : Solver.solve target = .ok s) :
+    ∃ l, target.heightFuncList = .ok l ∧ ∀ k, k < l.length → l.getD k 0 ≤ (s.ne : ℤ) := by
+  obtain ⟨h0, hs, hl, hne⟩ := solver_allocates_max_entropy target s h
+  refine ⟨h0 :: hs, hl, fun k hk => ?_⟩
+  obtain ⟨i1, i2⟩ := le_foldl_max hs h0
+  have hmem : (h0 :: hs).getD k 0 ∈ h0 :: hs := by
+    rw [List.getD_eq_getElem?_getD, List.getElem?_eq_getElem hk]
+    exact List.getElem_mem hk
+  have hle : (h0 :: hs).getD k 0 ≤ hs.foldl max h0 := by
+    rcases List.mem_cons.mp hmem with e | e
+    · rw [e]; exact i1
+    · exact i2 _ e
+  rw [hne]
+  exact le_trans hle (Int.self_le_toNat _)
+
+/-- `lin3` (linear cluster state, re-gauged): `height_func_list = [1, 1, 0]`, so the reduced state of qubits 1,2 has purity
+    `2^{-1}` and that of qubit 2 alone purity `2^{-1}` — the hypotheses of `height_is_entanglement_entropy` are met -/
+example : Matrix.trace (ptraceList (leftSites 0) (rho (2 + (leftSites 0).length) lin3)
+      * ptraceList (leftSites 0) (rho (2 + (leftSites 0).length) lin3)) = (2 : ℂ) ^ (-(1 : ℤ)) ∧
+    Matrix.trace (ptraceList (leftSites 1) (rho (1 + (leftSites 1).length) lin3)
+      * ptraceList (leftSites 1) (rho (1 + (leftSites 1).length) lin3)) = (2 : ℂ) ^ (-(1 : ℤ)) := by
+  have h1 : lin3.heightFuncList = .ok [1, 1, 0] := by decide +kernel
+  exact ⟨(height_is_entanglement_entropy 2 lin3 0 rfl lin3_good _ h1).2.2.1,
+    (height_is_entanglement_entropy 1 lin3 1 rfl lin3_good _ h1).2.2.1⟩
 
 end Graphiq.C03
